@@ -66,3 +66,12 @@ Definition all_wf (p : pool) : Prop :=
   (forall h t, assoc h (all p) = Some t -> thash t = h) /\
   (forall t, listed p t -> assoc (thash t) (all p) = Some t).
 Definition all_exact (p : pool) : Prop := all_wf p /\ forall h t, assoc h (all p) = Some t -> listed p t.
+
+(* the cached ceilings of txList (costcap / gascap) bound every transaction of the list: what lets
+   txList.Filter short-circuit soundly *)
+Definition caps_ok (l : txlist) : Prop := Forall (fun t => tcost t <= costcap l /\ tgas t <= gascap l) (items l).
+Definition caps_sound (p : pool) : Prop :=
+  (forall a l, assoc a (pending p) = Some l -> caps_ok l) /\ (forall a l, assoc a (queue p) = Some l -> caps_ok l).
+(* affordability half of pending_executable *)
+Definition pending_affordable (p : pool) : Prop :=
+  forall a l, assoc a (pending p) = Some l -> Forall (fun t => tcost t <= cur_balance p a /\ tgas t <= maxgas p) (items l).
